@@ -24,7 +24,11 @@ PROPERTY = {
                    "program counter, (4) every identifier belongs to the architecture's register set (or is IRDst), and (5) the "
                    "IR graph has an edge to every location among the possible values of the block's destination. Any other "
                    "exception raised by the lifter is a violation (tagged with architecture, mnemonic and exception type). "
-                   "Bounded: exploration, not proof.",
+                   "Bounded: exploration, not proof. Deductive layer (counted separately, unbounded): ir.slice_rest, the helper "
+                   "AssignBlock._set uses to widen an assignment to a sliced destination to the full register, is executed symbolically "
+                   "(pyvc, z3) for every size, start <= stop: it raises ValueError iff the slice leaves the register, and otherwise "
+                   "returns pieces that lie inside the register, outside the slice, are pairwise disjoint and whose lengths plus the "
+                   "slice's add up to the register size (so the rebuilt source is as wide as the register).",
     "rule": "one case = one architecture / mode, one chunk of 250 byte strings and one group of failure classes (the classes of one known finding of that architecture, or every other class)",
     "trusted_base": ["CPython executes the real decoders and lifters; the sampling and the structural checks are written in "
                      "props/C14.py"],
@@ -259,7 +263,63 @@ class LiftCases(BoundedContract):
             len(mine), n, len(seen), " ;; ".join(list(seen.values())[:4]), " ".join(sorted(seen))), n > 0)
 
 
+class _Arg(object):
+    def __init__(self, size):
+        self.size = size
+
+    def __repr__(self):
+        return "<sliced expression>"
+
+
+class _Slice(object):
+    """stand-in for an ExprSlice destination: slice_rest reads .arg.size, .start and .stop only"""
+    def __init__(self, size, start, stop):
+        self.arg = _Arg(size)
+        self.start = start
+        self.stop = stop
+
+    def __repr__(self):
+        return "<slice>"
+
+
+def _slice_rest_body(ctx):
+    """deductive layer: AssignBlock._set keeps both sides of an assignment to a sliced destination as wide as the full register
+    only if slice_rest returns exactly the complement of [start, stop) in [0, size) -- for every size, start and stop"""
+    from miasm.ir import ir
+    from vc.terms import And, Or
+    size = ctx.int("size", 1, None, rnd_hi=128)
+    start = ctx.int("start", 0, None, rnd_hi=140)
+    stop = ctx.int("stop", 0, None, rnd_hi=140)
+    ctx.assume(start <= stop)           # ExprSlice.__init__ asserts start < stop; the empty slice is handled by the function itself
+    r = ctx.call(ir.slice_rest, _Slice(size, start, stop))
+    if ctx.decide(And(start < size, stop <= size)):
+        if r.raised:
+            ctx.check("accepts-slice-inside-register", False, kind="no-raise")
+            return
+        ctx.cover("accepted")
+        rest = list(r.value)
+        total = stop - start
+        for k, (lo, hi) in enumerate(rest):
+            ctx.check("piece%d-inside-register" % k, And(lo >= 0, lo < hi, hi <= size))
+            ctx.check("piece%d-outside-slice" % k, Or(start == stop, hi <= start, lo >= stop))
+            for (lo2, hi2) in rest[k + 1:]:
+                ctx.check("pieces-disjoint", Or(hi <= lo2, hi2 <= lo))
+            total = total + (hi - lo)
+        ctx.check("pieces-and-slice-cover-register", total == size)
+    else:
+        ctx.cover("rejected")
+        ctx.check("rejects-slice-outside-register", r.raised and isinstance(r.exc, ValueError), kind="raises-post")
+
+
+def proof_targets():
+    from harness.core import Target
+    from miasm.ir import ir
+    t = Target("C14/slice_rest.complement", [ir.slice_rest], _slice_rest_body)
+    t.expect_covers = ["accepted", "rejected"]
+    return [t]
+
+
 def targets(tier):
-    return chunked(LiftCases, "C14/lift", 16, tier)
+    return proof_targets() + chunked(LiftCases, "C14/lift", 16, tier)
 
 
